@@ -71,12 +71,12 @@ func (Engine) Runs(tier string) int {
 func (Engine) Meta() core.Meta {
 	return core.Meta{
 		Level:       "exploration",
-		Rule:        "a case = one conversation: state machine (recipient / identity / identity used as recipient / identity as the first of two identities inside age.Decrypt, where a missing file key must hand over to the next identity and a protocol failure must not), UI callback subset (each nil / failing / answering, WaitTimer set or not), and a peer script of up to 8 messages over the protocol alphabet (recipient-stanza with index 0/1/-1/non-numeric/missing type, labels first/repeated/empty, file-key valid/duplicate/extra args/bad index, error, msg, request-secret/public, confirm with 0..3 args and bad base64, unknown command, done, malformed framing: no arrow, long body line, missing short line, non-canonical base64, CR, padding), each message delivered whole/per line/per byte, optional stalls of 0/4.9/5.1/60/3600 s before a message (fake clock), peer death before intake / between messages / mid-line / mid-body. Oracle: executable model of the client written from the statement (expected reply per message, final result class and values, well-formed phase-1 transcript), bounded liveness after the peer's last action. Non-trivial = at least one message besides done; distinct = distinct (machine, UI, script skeleton, death point).",
+		Rule:        "a case = one conversation: state machine (recipient / identity / identity used as recipient / identity as the first of two identities inside age.Decrypt, where a missing file key must hand over to the next identity and a protocol failure must not), UI callback subset (each nil / failing / answering, WaitTimer set or not), and a peer script of up to 8 messages over the protocol alphabet (recipient-stanza with index 0/1/-1/non-numeric/missing type, labels first/repeated/empty, file-key valid/duplicate/extra args/bad index, error, msg, request-secret/public, confirm with 0..3 args and bad base64, unknown command, done, a first line of 4 to 70 KB (long argument); malformed framing: no arrow, long body line, missing short line, non-canonical base64, CR, padding), each message delivered whole/per line/per byte, optional stalls of 0/4.9/5.1/60/3600 s before a message (fake clock), peer death before intake / between messages / mid-line / mid-body. Oracle: executable model of the client written from the statement (expected reply per message, final result class and values, well-formed phase-1 transcript), bounded liveness after the peer's last action. Non-trivial = at least one message besides done; distinct = distinct (machine, UI, script skeleton, death point).",
 		Assumptions: []string{"where the statement prescribes nothing (malformed confirm, file-key with an empty body) the model only requires termination with an error or a prescribed result", "no timing oracle: WaitTimer firings are probes only", "a peer that stays alive and silent forever is not generated (waiting for it is what the protocol prescribes)", "exec/PATH lookup is replaced by the hook and not observed (C17)"},
 		Real:        []string{"filippo.io/age/plugin client (Recipient.WrapWithLabels, Identity.Unwrap, ClientUI.handle/readStanza)", "internal/format StanzaReader and Stanza.Marshal", "time.AfterFunc on the bubble's fake clock"},
 		Stub:        []string{"plugin process and its pipes (plugin.VerifTransport hook, build tag verif)", "ClientUI callbacks", "wall clock (testing/synctest bubble)"},
 		FaultKinds:  []string{"fault.death_at_start", "fault.death_between_messages", "fault.death_mid_message", "fault.stall", "fault.malformed_framing", "fault.bad_index", "fault.repeated_labels", "fault.duplicate_file_key", "fault.error_message", "fault.unknown_command", "fault.ui_callback_missing_or_failing"},
-		Probes:      []string{"probe.wait_timer_fired", "probe.success_recipient", "probe.success_identity", "probe.incorrect_identity", "probe.error_text_propagated", "probe.zero_stanzas", "probe.fragment_per_byte", "probe.fragment_per_line", "probe.lenient_tail", "probe.prompt_answered", "probe.confirm_answered", "probe.name_checked", "probe.inside_age_decrypt"},
+		Probes:      []string{"probe.wait_timer_fired", "probe.success_recipient", "probe.success_identity", "probe.incorrect_identity", "probe.error_text_propagated", "probe.zero_stanzas", "probe.fragment_per_byte", "probe.fragment_per_line", "probe.lenient_tail", "probe.prompt_answered", "probe.confirm_answered", "probe.name_checked", "probe.inside_age_decrypt", "probe.coalesced_delivery", "probe.first_line_beyond_4096"},
 	}
 }
 
@@ -191,6 +191,10 @@ func genMsg(r *core.RNG, machine string) PMsg {
 		}[r.Intn(10)]
 	default:
 		m.Kind = "done"
+	}
+	if r.Chance(1, 12) && (m.Kind == "unknown" || m.Kind == "labels" || (m.Kind == "rs" && len(m.Args) >= 3)) {
+		// a first line longer than one 4096-byte buffer: arguments have no length bound in the format
+		m.Args = append(m.Args, strings.Repeat("z", r.Pick(4000, 4090, 4200, 5000, 70000)))
 	}
 	return m
 }
@@ -791,7 +795,14 @@ func (en Engine) converse(p0 *Plan, c *core.Ctx) (verdict *core.Verdict) {
 	}
 	skeleton := fmt.Sprintf("%s|%+v|%d|%d|%v|", p.Machine, p.UI, p.DeathAt, p.DeathCut, p.DeadAtStart)
 	for _, m := range p.Msgs {
-		skeleton += fmt.Sprintf("%s%v/%s/%d,", m.Kind, m.Args, m.Frag, m.StallMs)
+		args := append([]string(nil), m.Args...)
+		for i, a := range args {
+			if len(a) > 100 {
+				args[i] = fmt.Sprintf("%s*%d", a[:1], len(a))
+				c.Stats.Inc("probe.first_line_beyond_4096")
+			}
+		}
+		skeleton += fmt.Sprintf("%s%v/%s/%d,", m.Kind, args, m.Frag, m.StallMs)
 	}
 	c.Stats.Eval(skeleton, len(p.Msgs) > 1 || death)
 	// (the number of bytes the client wrote is not logged: its grease stanza comes from math/rand's auto-seeded source)
